@@ -106,55 +106,46 @@ def ancestralSetAfter (g : MG Name) (cond : List Var) (root : Var) : Except Err 
 
 /-! ### merging ancestral sets into ancestral components (ancestor_utils.py:212-366, 404-599)
 
-Both merge passes build a graph whose nodes are the input sets, run a depth-first traversal from every
-not yet visited node and return the union of each traversal.  The traversal order depends on Python's
-set iteration order but the result, as a set of sets, is the set of unions of the connected components;
-the model computes the components with `MG.districts` on the graph of set *indices*. -/
+Both merge passes build a graph whose nodes are the input sets (`adj_list`), run a depth-first traversal from every not
+yet visited node and return the union of each traversal.  The traversal order depends on Python's set iteration order
+but the result, as a set of sets, is the set of unions of the connected components; the model computes the components
+with `MG.districts` on the graph whose nodes are the input sets themselves (a `frozenset` is a list here; two lists
+with the same elements share their base variables, are linked by the first pass and end up in one union, so the
+identification of equal frozensets needs no separate step). -/
 
 /-- `get_base_variables` -/
 def bases (s : List Var) : List Name := dedup' (s.map (·.name))
 
-/-- a `set[frozenset[Variable]]`: drop repeated sets -/
-def dedupSets : List (List Var) → List (List Var)
-  | [] => []
-  | s :: ss => s :: (dedupSets ss).filter (fun t => !seteq' s t)
+/-- the edges of `adj_list`: all ordered pairs of input sets that the pass links (`combinations_with_replacement`
+yields each unordered pair once; the graph is undirected) -/
+def linkPairs (sets : List (List Var)) (R : List Var → List Var → Bool) : List (List Var × List Var) :=
+  sets.flatMap (fun s => (sets.filter (R s)).map (fun t => (s, t)))
 
-/-- union of the sets with the given indices (`node.union(*neighbors)`) -/
-def unionOf (sets : List (List Var)) (idx : List Nat) : List Var :=
-  dedup' (idx.flatMap (fun i => (sets[i]?).getD []))
+/-- `result.add(node.union(*neighbors))` for every traversal: the union of each connected component -/
+def mergeBy (sets : List (List Var)) (R : List Var → List Var → Bool) : List (List Var) :=
+  let gr : MG (List Var) := MG.fromEdges [] [] (linkPairs sets R)
+  gr.districts.map (fun comp => dedup' comp.flatten)
 
-/-- index pairs `i ≤ j` of `combinations_with_replacement(input_sets, 2)` -/
-def idxPairs (n : Nat) : List (Nat × Nat) :=
-  (List.range n).flatMap (fun i => ((List.range n).filter (fun j => decide (i ≤ j))).map (fun j => (i, j)))
+/-- `converted_sets[r1] & converted_sets[r2]` -/
+def shareBase (s t : List Var) : Bool := (bases s).any (fun b => decide (b ∈ bases t))
 
 /-- `_merge_frozen_sets_with_common_vertices`: sets are linked when they share a base variable.
 A set is linked to itself only when it is non-empty, so an empty input set never enters `adj_list`
 and is dropped. -/
-def mergeCommon (sets : List (List Var)) : List (List Var) :=
-  let sets := dedupSets sets
-  let links := (idxPairs sets.length).filter (fun p =>
-    (bases ((sets[p.1]?).getD [])).any (fun b => decide (b ∈ bases ((sets[p.2]?).getD []))))
-  let gr : MG Nat := MG.fromEdges [] [] links
-  dedupSets (gr.districts.map (unionOf sets))
+def mergeCommon (sets : List (List Var)) : List (List Var) := mergeBy sets shareBase
 
-/-- `vertices_to_input_sets[v]`: index of the input set whose base variables contain `v` -/
-def setIndexOf (sets : List (List Var)) (v : Name) : Option Nat :=
-  (List.range sets.length).find? (fun i => decide (v ∈ bases ((sets[i]?).getD [])))
+/-- the link of the second pass: a set with itself, and two sets when a bidirected edge of the graph joins a base
+variable of one to a base variable of the other.  An edge with an endpoint outside every input set links nothing
+(after `fix:` F8b; before it `vertices_to_input_sets`, a `defaultdict(frozenset)`, mapped such a vertex to the EMPTY
+frozenset, which became a node linked to every set with a bidirected edge leaving the input sets).
+`vertices_to_input_sets[v]` is the input set containing `v`; the first pass makes the input sets disjoint on base
+variables (`mergeCommon_base_disjoint`), which is the only way this function is reached. -/
+def biLinked (g : MG Name) (s t : List Var) : Bool :=
+  decide (s = t) || g.bi.any (fun e =>
+    (decide (e.1 ∈ bases s) && decide (e.2 ∈ bases t)) || (decide (e.2 ∈ bases s) && decide (e.1 ∈ bases t)))
 
-/-- `_merge_frozen_sets_linked_by_bidirectional_edges`: every set is linked to itself; two sets are linked when a
-bidirected edge of the graph joins a base variable of one to a base variable of the other.  An edge with an
-endpoint outside every input set is skipped (after `fix:` F8b; before it `vertices_to_input_sets`, a
-`defaultdict(frozenset)`, mapped such a vertex to the EMPTY frozenset, which became a node linked to every set
-with a bidirected edge leaving the input sets). -/
-def mergeBidirected (g : MG Name) (sets : List (List Var)) : List (List Var) :=
-  let sets := dedupSets sets
-  let self := (List.range sets.length).map (fun i => (i, i))
-  let links := g.bi.filterMap (fun e =>
-    match setIndexOf sets e.1, setIndexOf sets e.2 with
-    | some r1, some r2 => if r1 ≠ r2 then some (r1, r2) else none
-    | _, _ => none)
-  let gr : MG Nat := MG.fromEdges [] [] (self ++ links)
-  dedupSets (gr.districts.map (unionOf sets))
+/-- `_merge_frozen_sets_linked_by_bidirectional_edges` -/
+def mergeBidirected (g : MG Name) (sets : List (List Var)) : List (List Var) := mergeBy sets (biLinked g)
 
 /-- `_compute_ancestral_components_from_ancestral_sets` -/
 def componentsFromSets (g : MG Name) (sets : List (List Var)) : List (List Var) :=
